@@ -69,9 +69,13 @@ fn run_case(f: &[String]) -> String {
         for (s, b, nm, v) in &ins[k..] { h.insert(parse_scope(s), parse_beh(b), os(nm), os(v)); hc.insert(parse_scope(s), parse_beh(b), os(nm), os(v)); }
         if h != le || h.apply(qs2.clone(), &env) != out || hc.apply(qs2.clone(), &env) != out { histeq = false; }
     }
+    // `chainable_insert` builds the same value as the same sequence of `insert` calls
+    let mut chained = LayerEnv::new();
+    for (s, b, nm, v) in &ins { chained = chained.chainable_insert(parse_scope(s), parse_beh(b), os(nm), os(v)); }
+    let chaineq = chained == le && chained.apply(parse_scope(&f[0]), &env) == out;
     // `apply_to_empty` is observed on its own (it is documented as `apply` to an empty environment)
     let empty = le.apply_to_empty(qs2);
-    format!("{};pure={};permeq={};histeq={};empty={}", render_env(&out), u8::from(pure), u8::from(permeq), u8::from(histeq), render_env(&empty))
+    format!("{};pure={};permeq={};histeq={};chaineq={};empty={}", render_env(&out), u8::from(pure), u8::from(permeq), u8::from(histeq), u8::from(chaineq), render_env(&empty))
 }
 
 const NAMES: &[&[u8]] = &[b"A", b"B", b"PATH", b"A.b", b"\xffz", b"", b"A=", b"a"];
